@@ -97,10 +97,23 @@ def content_check(eng, rep, ctx, n):
             }
             return kinds
 
+        reuse = k % 4 == 3            # a producer that reuses ONE large pixel buffer for every frame (capture buffer / canvas)
+        canvas = np.zeros((150, 160, 3), np.uint8)      # 72 000 bytes: above pyzmq's zero-copy threshold
+
         def origin():
-            mq = MQ(None, 'tcp://*:6000', 'S', outs_metrics=False, outs_filter=False, outs_jpg=outs_jpg)
+            mq = MQ(None, 'tcp://*:6000', 'S', outs_metrics=False, outs_filter=False, outs_jpg=False if reuse else outs_jpg)
             for i in range(nfr):
                 fr = mkframes(i)
+                if reuse:
+                    canvas[:] = (i * 37 + 11) % 256
+                    canvas[i, :, 0] = 255 - i
+                    fr['main'] = Frame(canvas, {'i': i, 'reuse': True}, 'BGR')
+                    # what the consumer must get is the picture as it is NOW (the frame object itself will change)
+                    snap = Frame(canvas.copy(), {'i': i, 'reuse': True}, 'BGR')
+                    sent.append(dict(fr, main=snap))
+                    while not mq.send(fr, 100):
+                        pass
+                    continue
                 sent.append(fr)
                 while not mq.send(fr, 100):
                     pass
@@ -157,7 +170,7 @@ def content_check(eng, rep, ctx, n):
                 ok = (x.data or {}) == (y.data or {}) and x.has_image == y.has_image
                 if ok and x.has_image:
                     from openfilter.filter_runtime import mq as Mm
-                    send_jpg = (Mm.OUTPUTS_JPG if outs_jpg is None else outs_jpg)
+                    send_jpg = False if reuse else (Mm.OUTPUTS_JPG if outs_jpg is None else outs_jpg)
                     send_jpg = x.has_jpg if send_jpg is None else send_jpg
                     ok = (x.height, x.width, x.format) == (y.height, y.width, y.format)
                     if ok and not send_jpg:
